@@ -53,9 +53,9 @@ sw:
 ind:
 	indirectbr i8* %addr, [ label %inv, label %cbr ]
 inv:
-	%r = invoke i32 (i32, ...) @g(i32 %a) [ "deopt"(i32 %ld) ] to label %cbr unwind label %lp
+	%r = invoke i32 (i32, ...) @g(i32 %a, i32 %ld, float %f, i32 %a) [ "deopt"(i32 %ld) ] to label %cbr unwind label %lp
 cbr:
-	callbr void @v() [ "deopt"(i32 %a) ] to label %ret [label %ind]
+	%cb = callbr i32 (i32, ...) @g(i32 %a, i32 %ld, i32 %a) [ "deopt"(i32 %a) ] to label %ret [label %ind]
 lp:
 	%l = landingpad { i8*, i32 } cleanup catch i8* %addr
 	resume { i8*, i32 } %l
